@@ -63,6 +63,10 @@ class SimpleCloudsContribution(Contribution):
         cloud_filtr = model.pressureProfile >= self._cloud_pressure
         contrib[cloud_filtr, :] = np.inf
         self._contrib = contrib
+        # contribute() reads sigma_xsec; set it here as well so that the
+        # component evaluated on its own (model_full_contrib) does not use
+        # whatever an earlier prepare() left behind
+        self.sigma_xsec = contrib
         yield 'Clouds', self._contrib
 
     @fitparam(param_name='clouds_pressure',
